@@ -346,6 +346,23 @@ def signal_closed(ck):
             loopguard = any(has(gf[n_.id], "%s is None" % v_, False) for n_, _c, v_, _k in ss if v_ in loopvars.values())
             ck.ob("C13.drain-complete", fi, fi.node, nonefilter or loopguard, "an unset %s (None) never reaches the settle loop" % path, construct="%s: None filtered before settling" % path)
 
+    # one cancelled future must not abort the settlement of the others: reading the outcome of the loop variable
+    # (exception() / result() raise CancelledError) is protected by a handler inside the loop body
+    pm_sc = q.parent_map(fi.node)
+    n_reads = 0
+    for lp in loops:
+        it_ = q.dotted(lp.ast.iter)
+        v_ = q.dotted(lp.ast.target)
+        if it_ not in settled_lists or not v_:
+            continue
+        for x in ast.walk(ast.Module(body=lp.ast.body, type_ignores=[])):
+            if isinstance(x, ast.Call) and q.call_attr(x) in ("exception", "result") and q.receiver(x) == v_:
+                n_reads += 1
+                inside = q.protected_by(pm_sc, x, "asyncio.CancelledError", stop=lp.ast) is not None
+                ck.ob("C13.settle-each", fi, x, inside, "in the settle loop the outcome of each future is read under a handler for CancelledError inside the loop body: a cancelled future must not end the loop (every later future is still failed)")
+    settle_loops = [lp for lp in loops if q.dotted(lp.ast.iter) in settled_lists]
+    for lp in settle_loops:
+        ck.ob("C13.settle-each", fi, lp.ast, not any(isinstance(x, (ast.Break, ast.Return)) for s_ in lp.ast.body for x in ast.walk(s_)), "the settle loop has no early exit")
     # settles
     n = settles_guarded(ck, "C13.settle-guarded", fi, None, eff, allow_safe_unguarded=True)
     ck.floor("C13.settle-guarded", n, 2, "settle sites in _signal_closed")
@@ -704,6 +721,7 @@ def field_settles(ck):
 
 def run(ck):
     ck.rule("C13.drain-complete", "every Future-typed field declared by the stream classes is collected/settled and cleared by _signal_closed on every path")
+    ck.rule("C13.settle-each", "_signal_closed settles every collected future: outcome reads that can raise CancelledError are handled inside the loop body, the loop has no early exit")
     ck.rule("C13.settle-guarded", "settles in _signal_closed are guarded by not done() (or *_unless_cancelled); pending operations fail with StreamClosedError(real_error=self.error)")
     ck.rule("C13.close-callback", "the close callback is used only through take-and-clear, scheduled on the IOLoop at most once, after the futures were failed")
     ck.rule("C13.close-idempotent", "close(): teardown only under not closed(); _closed set whenever the fd was closed; _closed only ever becomes True, in close()")
@@ -811,7 +829,23 @@ def _drop_last_close(root):
     return False
 
 
+def _handler_around_loop(root):
+    # seeded C13-adv6: try/except CancelledError wraps the whole settle loop
+    for n in ast.walk(root):
+        b = getattr(n, "body", None)
+        if isinstance(b, list):
+            for i, st in enumerate(b):
+                if isinstance(st, ast.For) and any(isinstance(x, ast.Try) for x in st.body):
+                    tr = [x for x in st.body if isinstance(x, ast.Try)][0]
+                    k = st.body.index(tr)
+                    st.body[k:k + 1] = tr.body
+                    b[i] = ast.Try(body=[st], handlers=tr.handlers, orelse=[], finalbody=[])
+                    return True
+    return False
+
+
 MUTANTS = [
+    ("seeded C13-adv6: the CancelledError handler wraps the whole settle loop", _in(B + "._signal_closed", _handler_around_loop), "C13.settle-each"),
     ("_connect_future forgotten at close", _in(B + "._signal_closed", remove_stmts(lambda st: isinstance(st, ast.If) and _src(st.test) == "self._connect_future is not None")), "C13.drain-complete"),
     ("seeded C13-adv1: close keeps only write futures with index > done index", _in(B + "._signal_closed", replace_stmt(lambda st: isinstance(st, ast.AugAssign) and "_write_futures" in _src(st.value), lambda st: ast.parse("while self._write_futures:\n    index, future = self._write_futures.popleft()\n    if index > self._total_write_done_index:\n        futures.append(future)").body)), "C13.drain-complete"),
     ("close collects only unfinished write futures (filtering comprehension)", _in(B + "._signal_closed", replace_stmt(lambda st: isinstance(st, ast.AugAssign) and "_write_futures" in _src(st.value), lambda st: [parse_stmt("futures += [future for _, future in self._write_futures if not future.done()]")])), "C13.drain-complete"),
